@@ -143,12 +143,19 @@ def make_field(o):
     s = st['session']
     c = o['c']
     arr = dec_array(o['dt'], o['v'])
+    unw = bool(o.get('unw'))     # a field that was created but never written (the natural "empty field")
     if c == 'NumericMemField':
-        f = F.NumericMemField(s, o['dt']); f.data.write(arr); return f
-    if c == 'CategoricalMemField':
-        f = F.CategoricalMemField(s, 'int8', {'a': 1, 'b': 2}); f.data.write(arr); return f
-    if c == 'TimestampMemField':
-        f = F.TimestampMemField(s); f.data.write(arr); return f
+        f = F.NumericMemField(s, o['dt'])
+    elif c == 'CategoricalMemField':
+        f = F.CategoricalMemField(s, 'int8', {'a': 1, 'b': 2})
+    elif c == 'TimestampMemField':
+        f = F.TimestampMemField(s)
+    else:
+        f = None
+    if f is not None:
+        if not unw:
+            f.data.write(arr)
+        return f
     key = json.dumps(o, sort_keys=True)
     if key in st['cache']:
         return st['cache'][key]
@@ -163,7 +170,8 @@ def make_field(o):
         f = df.create_timestamp(name)
     else:
         raise ValueError(c)
-    f.data.write(arr)
+    if not unw:
+        f.data.write(arr)
     st['cache'][key] = f
     return f
 
@@ -482,6 +490,20 @@ def gen(tier, rng):
             yield {'op': op, 'l': {'k': 'a', 'dt': 'int32', 'v': [1, -2]}, 'r': mk_operand_desc(a, 0, 3), 'df': False}
             yield {'op': op, 'l': mk_operand_desc(a, 0, 3), 'r': {'k': 'a', 'dt': 'int32', 'v': [-2]}, 'df': True}
             yield {'op': op, 'l': mk_operand_desc(a, 0, 1), 'r': mk_operand_desc(a, 1, 3), 'df': True}
+    # 7. fields that were created and never written (create_like(), NumericMemField(session, nformat), df.create_numeric):
+    #    their underlying array is the empty array of the field's dtype
+    for a in ft:
+        unw = {'k': 'f', 'c': a[1], 'dt': a[2], 'v': [], 'unw': 1}
+        others = [{'k': 'p', 'ty': 'int', 'v': -3}, {'k': 's', 'dt': 'float32', 'v': '-0x1.4p+1'},
+                  {'k': 'a', 'dt': 'int16', 'v': []}, {'k': 'f', 'c': a[1], 'dt': a[2], 'v': []},
+                  {'k': 'f', 'c': 'NumericMemField', 'dt': 'int64', 'v': [], 'unw': 1}]
+        for op in BOPS:
+            for k, o in enumerate(others):
+                yield {'op': op, 'l': unw, 'r': o, 'df': k == 0}
+                yield {'op': op, 'l': o, 'r': unw, 'df': False}
+            yield {'op': op, 'l': unw, 'r': 'same', 'df': False}
+        for op in UOPS:
+            yield {'op': op, 'l': unw, 'df': True}
     # 6. random: longer data, random dtype pairs and operators
     for _ in range(20000 if big else 2500):
         a, b = rng.choice(allt + [('a0', None, rng.choice(DT))]), rng.choice(allt)
@@ -526,6 +548,8 @@ def features(case, model):
             f.append('hdf5-backed' if not o['c'].endswith('MemField') else 'memory-backed')
             if len(o['v']) == 0:
                 f.append('empty-field')
+            if o.get('unw'):
+                f.append('never-written-field')
     if r is not None:
         dl, dr = _odt(l), _odt(r, l)
         if dl != dr:
